@@ -18,6 +18,7 @@
 import socket
 import struct
 
+import dns.exception
 import dns.immutable
 import dns.ipv4
 import dns.rdata
@@ -69,6 +70,8 @@ class WKS(dns.rdata.Rdata):
             value = token.unescape().value
             if value.isdecimal():
                 serv = int(value)
+                if serv > 65535:
+                    raise dns.exception.SyntaxError("port number is > 65535")
             else:
                 if protocol != _proto_udp and protocol != _proto_tcp:
                     raise NotImplementedError("protocol must be TCP or UDP")
